@@ -79,6 +79,8 @@ def ttext(t, fam, exprs):
         return "~" + exprs[t["e"]]["txt"]
     if k == "spl":
         return "~@" + exprs[t["e"]]["txt"]
+    if k == "nest":
+        return "~`" + ttext(t["inner"], fam, exprs)
     inner = " ".join(ttext(x, fam, exprs) for x in t["xs"])
     return {"list": "(%s)", "vec": "[%s]", "set": "#{%s}", "map": "{%s}"}[t["c"]] % inner
 
@@ -177,6 +179,8 @@ class Matcher:
             ok = (v["ty"] == "nil" and real is None) or (v["ty"] == "int" and real == v["i"] and not isinstance(real, bool)) \
                 or (v["ty"] == "kw" and getattr(real, "name", None) == v["n"] and type(real).__name__ == "Keyword")
             return None if ok else "constant:changed"
+        if f == "nest":         # the nested template's own form, inserted as the unquoted expression
+            return self.match(F["g"], real, bij)
         if f == "expr":
             return None if real == self.expr_forms[F["e"]] else "unquote:expression-not-inserted-verbatim"
         segs = self.segments(F["c"], real)
@@ -405,7 +409,14 @@ def gensym_count(t):
         if t["t"] == "coll":
             return set().union(*[names(x) for x in t["xs"]]) if t["xs"] else set()
         return set()
-    return len(names(t))
+
+    def nested(t):
+        if t["t"] == "nest":
+            return len(names(t["inner"]))
+        if t["t"] == "coll":
+            return sum(nested(x) for x in t["xs"])
+        return 0
+    return len(names(t)) + nested(t)
 
 
 def same_objects(a, b):
